@@ -708,6 +708,9 @@ func buildSyWorld(c *syCase) *syWorld {
 		}
 		if p.idOk {
 			pod.Labels[apps.StatefulSetPodNameLabel] = p.name
+		} else if len(p.name)%2 == 0 && p.ord >= 0 {
+			// the identity is not in order: no pod-name label at all, or one that names ANOTHER ordinal's pod (a copied manifest)
+			pod.Labels[apps.StatefulSetPodNameLabel] = fmt.Sprintf("%s-%d", rcSetName, p.ord+1)
 		}
 		if p.rev != "" {
 			pod.Labels[kubeapps.StatefulSetRevisionLabel] = p.rev
